@@ -2,7 +2,8 @@
 from . import method_common as mc
 
 PID = "C03"
-WHICH = ['Method.CheckStopCondition', 'Method.FinalizeIteration', 'Method.CalculateIterationPoint', 'Method.CalculateFunctionals', 'Process.DoGlobalIteration', 'Process.Solve']
+WHICH = ['Method.CheckStopCondition', 'Method.FinalizeIteration', 'Method.CalculateIterationPoint', 'Method.CalculateFunctionals',
+         'OptimizationTask.Calculate', 'Method.FirstIteration', 'Process.DoGlobalIteration', 'Process.Solve']
 EXTRA = ['termination: loop variants (Solve: itersLimit - iterationsCount; RecalcAllCharacteristics, lookups: remaining items) + no recursion in the verified call graph; termination of the objective, listeners, DEPQ is assumed', "C03 reading: the seeding iteration subdivides nothing; the reported accuracy is min over the chosen intervals (CalculateIterationPoint: accuracy' = min(old.delta, accuracy)), +inf before the first subdivision", 'scope: refineSolution == False']
 
 
